@@ -3,7 +3,8 @@ import re
 from checks import pipe
 import vlib
 
-PROPS = [("Moyo.Props.C09", "Moyo/Props/C09.lean"), ("Moyo.Props.C09Stages", "Moyo/Props/C09Stages.lean")]
+PROPS = [("Moyo.Props.C09", "Moyo/Props/C09.lean"), ("Moyo.Props.C09Stages", "Moyo/Props/C09Stages.lean"),
+         ("Moyo.Props.C09Noise", "Moyo/Props/C09Noise.lean")]
 
 
 def twins(per_mode):
